@@ -13,6 +13,24 @@
 //! sentinel answers.
 //! Output: "ok" + per step "[r1,r2,...]": per probe `<zone>:<serial>` (the SOA of the zone that
 //! answered), `servfail` or `refused`.
+//!
+//! Case line of the KEY-reload scenario (one field):  K:<step>;<step>;...
+//!   <step> = `-` (no TSIG key configured) or <key>,<key>,...  with <key> = <name>.<variant>,
+//!   name = k1|k2|k3 (any letter case), variant a = (hmac-sha256, secret A of that name),
+//!   b = (hmac-sha1, secret A), c = (hmac-sha256, secret B).  A step prefixed with `!` is a
+//!   configuration the daemon must reject (the same key name twice): nothing may change.
+//! The daemon is started with the step-0 configuration (sentinel zone + zone `kz.` + the keys);
+//! every further step rewrites the configuration and SIGHUPs.  `reload_zones_and_keys` installs
+//! the catalog first and the key map second, so the sentinel alone does not show that the key
+//! map is in place: the runner then SIGHUPs once more with a syntactically broken configuration
+//! and waits for the daemon's "Failed to reload" message - signals are handled one after the
+//! other, so that message proves the previous reload has RETURNED (and it changes nothing).
+//! Then, for every (name, variant) of the universe, one SOA query for `kz.` correctly signed
+//! with that name/algorithm/secret (the crate's own Writer, TsigMode::Request, time = now), and
+//! one unsigned query.  Per query: `ok` (NOERROR, answer present, response TSIG with error 0
+//! and a MAC; unsigned: no TSIG), `badkey` (RCODE 9, TSIG error 17, empty MAC, no answer or
+//! authority records), `badsig` (the same with error 16), anything else verbatim.
+//! Output: "ok" + per step "[k1a=ok,k1b=badkey,k1c=badsig,...,plain=ok]".
 use std::io::{BufRead, BufReader, Write};
 use std::net::UdpSocket;
 use std::path::{Path, PathBuf};
@@ -20,6 +38,11 @@ use std::process::{Child, Command, Stdio};
 use std::sync::mpsc::{channel, Receiver};
 use std::time::{Duration, Instant, SystemTime};
 
+use quandary::class::Class;
+use quandary::message::tsig::{Algorithm, PreparedTsigRr};
+use quandary::message::writer::TsigMode;
+use quandary::message::{ExtendedRcode, Qclass, Question, Writer};
+use quandary::rr::Type;
 use qv_harness::*;
 
 const BASE_TIME: u64 = 1_600_000_000;
@@ -50,7 +73,7 @@ fn set_mtime(p: &Path, mt: u64) {
     f.set_modified(SystemTime::UNIX_EPOCH + Duration::from_secs(BASE_TIME + mt)).unwrap();
 }
 
-fn write_step(dir: &Path, zones: &[ZoneSpec], broken: bool, port: u16) {
+fn write_step(dir: &Path, zones: &[ZoneSpec], broken: bool, port: u16, keys: &str) {
     let mut cfg = format!(
         "bind = \"127.0.0.1:{port}\"\n[io]\nprovider = \"blocking\"\ntcp_base_workers = 1\nudp_workers_per_socket = 1\n"
     );
@@ -99,6 +122,7 @@ fn write_step(dir: &Path, zones: &[ZoneSpec], broken: bool, port: u16) {
             _ => panic!("state"),
         }
     }
+    cfg.push_str(keys);
     if broken {
         cfg.push_str("[[zones\nthis is not toml\n");
     }
@@ -279,7 +303,233 @@ fn wait_rejected(d: &mut Daemon) -> bool {
     false
 }
 
+// ------------------------------------------------------------------ the key-reload scenario
+
+const KEY_NAMES: [&str; 3] = ["k1", "k2", "k3"];
+const VARIANTS: [char; 3] = ['a', 'b', 'c'];
+
+fn key_secret(name: &str, variant: char) -> Vec<u8> {
+    let which = if variant == 'c' { "B" } else { "A" };
+    format!("secret-{which}-of-{}-0123456789abcdef", name.to_ascii_lowercase()).into_bytes()
+}
+
+fn key_algorithm(variant: char) -> Algorithm {
+    if variant == 'b' {
+        Algorithm::HmacSha1
+    } else {
+        Algorithm::HmacSha256
+    }
+}
+
+fn base64(d: &[u8]) -> String {
+    const T: &[u8; 64] = b"ABCDEFGHIJKLMNOPQRSTUVWXYZabcdefghijklmnopqrstuvwxyz0123456789+/";
+    let mut s = String::new();
+    for c in d.chunks(3) {
+        let v = (c[0] as u32) << 16 | (*c.get(1).unwrap_or(&0) as u32) << 8 | *c.get(2).unwrap_or(&0) as u32;
+        s.push(T[(v >> 18) as usize & 63] as char);
+        s.push(T[(v >> 12) as usize & 63] as char);
+        s.push(if c.len() > 1 { T[(v >> 6) as usize & 63] as char } else { '=' });
+        s.push(if c.len() > 2 { T[v as usize & 63] as char } else { '=' });
+    }
+    s
+}
+
+/// The `[[tsig_keys]]` section for one step (`-` = none).
+fn keys_toml(step: &str) -> String {
+    let mut t = String::new();
+    if step == "-" {
+        return t;
+    }
+    for k in step.split(',') {
+        let (name, v) = k.split_once('.').expect("key = name.variant");
+        let v = v.chars().next().unwrap();
+        t.push_str(&format!(
+            "[[tsig_keys]]\nname = \"{name}.\"\nalgorithm = \"{}\"\nsecret = \"{}\"\n",
+            if v == 'b' { "hmac-sha1" } else { "hmac-sha256" },
+            base64(&key_secret(name, v))
+        ));
+    }
+    t
+}
+
+fn soa_query(id: u16, sign: Option<(&str, char)>) -> Vec<u8> {
+    let mut buf = vec![0u8; 512];
+    let mut w = Writer::new(&mut buf, 512).unwrap();
+    w.set_id(id);
+    w.add_question(&Question { qname: "kz.".parse().unwrap(), qtype: Type::SOA.into(), qclass: Qclass::from(Class::IN) }).unwrap();
+    if let Some((name, v)) = sign {
+        let now = SystemTime::now().try_into().unwrap();
+        let rr = PreparedTsigRr {
+            key_name: format!("{name}.").parse().unwrap(),
+            time_signed: now,
+            fudge: 300,
+            original_id: id,
+            error: ExtendedRcode::NOERROR,
+            server_time: now,
+        };
+        w.set_tsig(TsigMode::Request { algorithm: key_algorithm(v), key: key_secret(name, v).into() }, rr).unwrap();
+    }
+    let n = w.finish();
+    buf.truncate(n);
+    buf
+}
+
+/// (rcode, ancount, nscount, TSIG of the response: (error, MAC length))
+fn parse_response(d: &[u8]) -> Option<(u8, usize, usize, Option<(u16, usize)>)> {
+    let rcode = d[3] & 15;
+    let qd = u16::from_be_bytes([d[4], d[5]]) as usize;
+    let an = u16::from_be_bytes([d[6], d[7]]) as usize;
+    let ns = u16::from_be_bytes([d[8], d[9]]) as usize;
+    let ar = u16::from_be_bytes([d[10], d[11]]) as usize;
+    let mut pos = 12;
+    for _ in 0..qd {
+        pos = read_name(d, pos)?.1 + 4;
+    }
+    let mut tsig = None;
+    for _ in 0..an + ns + ar {
+        let (_, p) = read_name(d, pos)?;
+        let ty = u16::from_be_bytes([*d.get(p)?, *d.get(p + 1)?]);
+        let rdlen = u16::from_be_bytes([*d.get(p + 8)?, *d.get(p + 9)?]) as usize;
+        let rd = p + 10;
+        if ty == 250 {
+            // algorithm name, time signed (6), fudge (2), MAC size (2), MAC, original ID (2), error (2), other len (2)
+            let (_, q) = read_name(d, rd)?;
+            let mac = u16::from_be_bytes([*d.get(q + 8)?, *d.get(q + 9)?]) as usize;
+            let e = q + 10 + mac + 2;
+            tsig = Some((u16::from_be_bytes([*d.get(e)?, *d.get(e + 1)?]), mac));
+        }
+        pos = rd + rdlen;
+    }
+    if pos != d.len() {
+        return None;
+    }
+    Some((rcode, an, ns, tsig))
+}
+
+fn key_probe(sock: &UdpSocket, port: u16, id: u16, sign: Option<(&str, char)>) -> String {
+    let q = soa_query(id, sign);
+    for _ in 0..3 {
+        if sock.send_to(&q, ("127.0.0.1", port)).is_err() {
+            continue;
+        }
+        let deadline = Instant::now() + Duration::from_millis(400);
+        let mut buf = [0u8; 2048];
+        while Instant::now() < deadline {
+            let n = match sock.recv_from(&mut buf) {
+                Ok((n, _)) => n,
+                Err(_) => continue,
+            };
+            let d = &buf[..n];
+            if n < 12 || d[0] != (id >> 8) as u8 || d[1] != id as u8 {
+                continue;
+            }
+            return match (parse_response(d), sign.is_some()) {
+                (Some((0, an, _, Some((0, mac)))), true) if an > 0 && mac > 0 => "ok".to_string(),
+                (Some((0, an, _, None)), false) if an > 0 => "ok".to_string(),
+                (Some((9, 0, 0, Some((17, 0)))), true) => "badkey".to_string(),
+                (Some((9, 0, 0, Some((16, 0)))), true) => "badsig".to_string(),
+                (Some((rc, an, ns, t)), _) => format!(
+                    "rcode{rc}/an{an}/ns{ns}/{}",
+                    match t {
+                        Some((e, m)) => format!("tsig-error{e}-mac{m}"),
+                        None => "no-tsig".to_string(),
+                    }
+                ),
+                (None, _) => format!("unparsable:{}", hex(d)),
+            };
+        }
+    }
+    "noanswer".to_string()
+}
+
+fn hup(dm: &mut Daemon) {
+    while dm.stderr.try_recv().is_ok() {}
+    let st = Command::new("kill").args(["-HUP", &dm.child.id().to_string()]).status();
+    assert!(st.map(|s| s.success()).unwrap_or(false), "kill failed");
+}
+
+fn run_keys_case(case: &str, daemon: &str, scratch: &Path, serial: usize) -> String {
+    let dir: PathBuf = scratch.join(format!("{}-{}", std::process::id(), serial));
+    let _ = std::fs::remove_dir_all(&dir);
+    std::fs::create_dir_all(&dir).unwrap();
+    let sock = UdpSocket::bind("127.0.0.1:0").unwrap();
+    sock.set_read_timeout(Some(Duration::from_millis(20))).unwrap();
+    let mut id: u16 = 1;
+    let mut out = String::from("ok");
+    let mut d: Option<Daemon> = None;
+    for (i, step) in case[2..].split(';').enumerate() {
+        let (reject, step) = match step.strip_prefix('!') {
+            Some(s) => (true, s),
+            None => (false, step),
+        };
+        // sentinel (unique to runner, case and step) + the zone that is queried; its file changes at every step
+        let zones = vec![
+            ZoneSpec { name: format!("zk{}p{}n{}.", i, std::process::id(), serial), class: 1, path: format!("{}", 900 + i), state: "ok.1.1".to_string() },
+            ZoneSpec { name: "kz.".to_string(), class: 1, path: "10".to_string(), state: format!("ok.{}.{}", i + 1, 100 + 2 * i + 1) },
+        ];
+        let keys = keys_toml(step);
+        match d.as_mut() {
+            None => {
+                assert!(!reject, "the first step must be a valid configuration");
+                let mut up = false;
+                for _ in 0..4 {
+                    let port = free_port();
+                    write_step(&dir, &zones, false, port, &keys);
+                    let mut dm = spawn(daemon, &dir, port);
+                    if wait_sentinel(&sock, &mut dm, &zones[0], &mut id) {
+                        d = Some(dm);
+                        up = true;
+                        break;
+                    }
+                }
+                if !up {
+                    return "err daemon-did-not-start".to_string();
+                }
+            }
+            Some(dm) => {
+                write_step(&dir, &zones, false, dm.port, &keys);
+                hup(dm);
+                if reject {
+                    if !wait_rejected(dm) {
+                        return format!("{out} timeout-waiting-for-rejection");
+                    }
+                } else {
+                    if !wait_sentinel(&sock, dm, &zones[0], &mut id) {
+                        return format!("{out} timeout-waiting-for-reload");
+                    }
+                    // barrier: a second, rejected reload; its error message proves the first one has returned
+                    write_step(&dir, &zones, true, dm.port, &keys);
+                    hup(dm);
+                    if !wait_rejected(dm) {
+                        return format!("{out} timeout-waiting-for-barrier");
+                    }
+                }
+            }
+        }
+        let dm = d.as_mut().unwrap();
+        let mut rs = Vec::new();
+        for name in KEY_NAMES {
+            for v in VARIANTS {
+                id = id.wrapping_add(1);
+                rs.push(format!("{name}{v}={}", key_probe(&sock, dm.port, id, Some((name, v)))));
+            }
+        }
+        id = id.wrapping_add(1);
+        rs.push(format!("plain={}", key_probe(&sock, dm.port, id, None)));
+        if !matches!(dm.child.try_wait(), Ok(None)) {
+            return format!("{out} daemon-died");
+        }
+        out.push_str(&format!(" [{}]", rs.join(",")));
+    }
+    drop(d);
+    let _ = std::fs::remove_dir_all(&dir);
+    out
+}
+
 fn run_case(f: &[&str], daemon: &str, scratch: &Path, serial: usize) -> String {
+    if f[0].starts_with("K:") {
+        return run_keys_case(f[0], daemon, scratch, serial);
+    }
     let dir: PathBuf = scratch.join(format!("{}-{}", std::process::id(), serial));
     let _ = std::fs::remove_dir_all(&dir);
     std::fs::create_dir_all(&dir).unwrap();
@@ -310,7 +560,7 @@ fn run_case(f: &[&str], daemon: &str, scratch: &Path, serial: usize) -> String {
                 let mut up = false;
                 for _ in 0..4 {
                     let port = free_port();
-                    write_step(&dir, &zones, false, port);
+                    write_step(&dir, &zones, false, port, "");
                     let mut dm = spawn(daemon, &dir, port);
                     if wait_sentinel(&sock, &mut dm, &zones[0], &mut id) {
                         d = Some(dm);
@@ -323,7 +573,7 @@ fn run_case(f: &[&str], daemon: &str, scratch: &Path, serial: usize) -> String {
                 }
             }
             Some(dm) => {
-                write_step(&dir, &zones, kind == "X", dm.port);
+                write_step(&dir, &zones, kind == "X", dm.port, "");
                 while dm.stderr.try_recv().is_ok() {}
                 let st = Command::new("kill").args(["-HUP", &dm.child.id().to_string()]).status();
                 assert!(st.map(|s| s.success()).unwrap_or(false), "kill failed");
